@@ -1039,6 +1039,18 @@ def encode_cmp(x):
     return x
 
 
+def twin_safe(x):
+    """The tagged-list twin of a compound program is faithful only if no list PATTERN of the program can unify
+    with an encoded compound ["s:T", a, ..]: no improper lists, and no list that starts with a variable."""
+    if isinstance(x, list):
+        if x and x[0] in ("cons", "ilist"):
+            return False
+        if len(x) == 2 and x[0] == "list" and isinstance(x[1], list) and x[1] and x[1][0][0] in ("var", "any"):
+            return False
+        return all(twin_safe(y) for y in x)
+    return True
+
+
 def plan_c20(ctx):
     r = mc(ctx, "cmp", "MC_Unify", {"K": "1", "Sched": "{0}", "Tag": '"ucmp"', "WithPrior": "FALSE"},
            ["Den", "AcyclicInv", "UnifiedIdentical", "UserBalance", "ExtensionExact", "EmitCase"],
@@ -1056,8 +1068,12 @@ def plan_c20(ctx):
         if not any("cmp" in str(g) for g in goals):
             goals.append(["eq", ["var", 1], tg.term(2)])
         g = "C20-t%d" % i
-        add(ctx, [query(ctx, g + "-c", nv, goals, group=g, enc=True),
-                  query(ctx, g + "-l", nv, encode_cmp(goals), group=g, gcheck="same_bag")])
+        if twin_safe(goals):
+            add(ctx, [query(ctx, g + "-c", nv, goals, group=g, enc=True),
+                      query(ctx, g + "-l", nv, encode_cmp(goals), group=g, gcheck="same_bag")])
+        else:
+            # the twin would not be faithful: the program is judged against the reference semantics only
+            add(ctx, [query(ctx, g + "-c", nv, goals)])
     # FD labelling through compound fields, and a compound against a list / literal
     for i in range(T(ctx, 250, 5000)):
         nv = rng.randint(2, 3)
